@@ -47,6 +47,44 @@ class KeyIdPrefix(PipelineBase):
             if r==z3.sat: rec['sample']={'scenario':scn(m),'expect':'ok' if oc=='ok' else 'err'}
         return rec
 
+class LinkFileNames(PipelineBase):
+    """files in the link directory whose names match `<step>.????????.link` with multi-byte characters in the
+    8-character part (a `?` matches any character): found by the directory scan before any signature is checked"""
+    name='C14.link_file_names'
+    MB=['\u00e9','\u20ac','\U00010000']
+    def __init__(self,**kw):
+        PipelineBase.__init__(self,**kw)
+        self.bounds={'decoy_file_name':'<step>.<8 characters>.link where one of the 8 characters (any position) is a 2-, 3- or 4-byte character and the others are the hex digits of an authorized key id; also the 7/9-character forms that the glob does not match',
+                     'step_name':'ASCII `s0` or non-ASCII `s\u00e9`','decoy_content':'validly signed by the authorized functionary / unparsable','companions':'with and without the genuine link file of the step'}
+        self.witnesses=['decoy_seen_ok','decoy_seen_err']
+    def mk_args(self,run):
+        F0,OWN=0,1
+        sname=['s0','s\u00e9'][run.pick(2,'stepname')]
+        pos=run.pick(8,'pos'); ch=self.MB[run.pick(3,'char')]
+        nchars=[8,7,9][run.pick(3,'nchars')]
+        base=(pool_keyid(F0)[:8]+'0')[:nchars]
+        pos=min(pos,nchars-1)
+        short=base[:pos]+ch+base[pos+1:]
+        parsable=run.pick(2,'parsable')==0
+        files=[FileD(sname,F0,BlockD('link',LinkD(sname,{'a':[1]},{'b':[2]}),[SigD(F0,F0)]),parsable=parsable,short_raw=short)]
+        if run.pick(2,'genuine')==0: files.append(FileD(sname,F0,BlockD('link',LinkD(sname,{'a':[1]},{'b':[2]}),[SigD(F0,F0)])))
+        dirs={():files}
+        lay=LayoutD([F0],[StepD(sname,1,[F0])])
+        lb=BlockD('layout',lay,[SigD(OWN,OWN)]); caller=[(OWN,OWN)]
+        args=self.install(run,lb,caller,dirs)
+        return args,{'lb':lb,'caller':caller,'dirs':dirs,'short':short}
+    def check(self,run,out,g):
+        oc=outcome_of(out); rec=self.new_rec(oc); rec['obl']=1
+        scn=lambda m: conc_scenario(m,g['lb'],g['caller'],g['dirs'],1700000000,repeat=1)
+        if oc=='panic':
+            r,m=run.check_sat(z3.BoolVal(True))
+            rec['viol']={'kind':'panic_link_file_name','known_key':None,'scenario':scn(m),'predicted':'panic','what':'in_toto_verify panics on a link directory containing a file named %s.%s.link: %s'%(g['dirs'][()][0].step,g['short'],str(out[1])[:200])}; return rec
+        self.wit(run,rec,'decoy_seen_ok' if oc=='ok' else 'decoy_seen_err')
+        if is_sample(run,self.seed,6):
+            r,m=run.check_sat(z3.BoolVal(True))
+            if r==z3.sat: rec['sample']={'scenario':scn(m),'expect':'ok' if oc=='ok' else 'err'}
+        return rec
+
 NN_SRC=['a/../b','./a','a//b','b','../x','a']
 class RulesNonNormal(c03.Rules):
     """the rule engine on non-normalised artifact paths (./, ../, //): any verdict, but no panic"""
@@ -213,21 +251,21 @@ class DecodeAdversarial(Obligation):
     """every single-node mutation of a valid document of every wire type, decoded on every channel: value or error, never a panic"""
     name='C14.decode_adversarial'
     hash_order='fixed'
-    def __init__(self,what='rule',seed=0,known=(),rate=40,nbytes=2,**kw):
-        self.what=what; self.seed=seed; self.rate=rate; self.nbytes=nbytes
-        self.name='C14.decode_'+what
+    def __init__(self,what='rule',seed=0,known=(),rate=40,nbytes=2,prop='C14',**kw):
+        self.what=what; self.seed=seed; self.rate=rate; self.nbytes=nbytes; self.prop=prop
+        self.name=prop+('.decode_' if prop=='C14' else '.adversarial_')+what
         self.ty,self.mkdoc=ADV_DOCS[what]
         self.bounds={'type':self.ty,'base_document':'one valid document of the type with every optional member present (harness/C14.py ADV_DOCS)',
                      'mutations':'exactly one node (any node, incl. the root) replaced by: null, a free boolean, a free u64, a free negative i64, a float, a free ASCII string of 0..%d bytes, a non-ASCII sample, a keyword-like string (date members: %d concrete malformed / extreme RFC 3339 samples instead of free bytes), the original string with one byte / one 2-byte character freed at the start, middle or end, [], ["x"], {}, {"x":null}; for an object also: one member removed, one unknown member added; for an array also: one element removed, one string appended'%(nbytes,len(DATE_SAMPLES)),
-                     'channels':CHANNELS,'obligation':'each channel returns Ok or Err (no panic); channel agreement is C17'}
+                     'channels':CHANNELS,'obligation':'each channel returns Ok or Err (no panic)' if prop=='C14' else 'all channels agree on acceptance and, when accepting, on the decoded value'}
         self.witnesses=['accepted','rejected']; self.seen=set()
     def setup(self,eng,tier): self.eng=eng; self.b=B(eng)
     def entry(self,eng):
         def go(run,args):
             outs=[]
             for ch in CHANNELS:
-                try: md.de_type(eng,run,self.ty,clone_val(args[0]),ch); outs.append('ok')
-                except md.DeFail: outs.append('err')
+                try: outs.append(('ok',md.de_type(eng,run,self.ty,clone_val(args[0]),ch)))
+                except md.DeFail: outs.append(('err',None))
             return outs
         return go
     def mutate(self,run,node,path):
@@ -290,7 +328,19 @@ class DecodeAdversarial(Obligation):
             rec['outcome']='panic'
             rec['viol']={'kind':'panic_decode_'+self.ty,'known_key':None,'scenario':scn(m),'predicted':'panic','what':'decoding a %s document panics (node %s, mutation %s): %s'%(self.ty,'/'.join(map(str,g['path'] or ())),g['mut'],str(out[1])[:200])}
             return rec
-        kinds=out[1]; rec['outcome']='/'.join(kinds)
+        kinds=[o[0] for o in out[1]]; rec['outcome']='/'.join(kinds)
+        if self.prop=='C17':
+            where='node %s, mutation %s'%('/'.join(map(str,g['path'] or ())),g['mut'])
+            if len(set(kinds))>1:
+                r,m=run.check_sat(z3.BoolVal(True))
+                bad=[c for c,k in zip(CHANNELS,kinds) if k=='err']
+                rec['viol']={'kind':'channel_dependent_decoding','known_key':None,'scenario':scn(m),'predicted':'/'.join(kinds),'what':'the same (malformed or unusual) %s document is accepted on some input channels and rejected on others (rejected on: %s; %s)'%(self.ty,','.join(bad),where)}; return rec
+            if kinds[0]=='ok':
+                from mirsym.models import val_eq, b_and
+                eqs=b_and(*[val_eq(out[1][0][1],o[1]) for o in out[1][1:]])
+                r,m=run.check_sat(z3.Not(eqs.z()))
+                if r==z3.sat:
+                    rec['viol']={'kind':'channel_dependent_value','confirm':{'values_equal':False},'known_key':None,'scenario':scn(m),'predicted':'/'.join(kinds),'what':'the same %s document decodes to different values on different input channels (%s)'%(self.ty,where)}; return rec
         w='accepted' if kinds[0]=='ok' else 'rejected'
         if w not in self.seen: self.seen.add(w); rec['wit'].append(w)
         if is_sample(run,self.seed,self.rate):
